@@ -9,6 +9,7 @@
   `yaml.Node.Decode`, which yields null / bool / int / float / string / time for scalar nodes).
 -/
 import GoPipeline.Lemmas.EndToEnd
+import GoPipeline.Lemmas.MarshalYTotal
 import GoPipeline.Props.C07   -- `Yaml.exStore` (non-vacuity example at the end)
 namespace GoPipeline.EndToEnd
 open GoPipeline GoPipeline.Pipe GoPipeline.Parse GoPipeline.Marshal GoPipeline.Roundtrip
@@ -52,6 +53,20 @@ theorem C13_document_usable (s : Yaml.Store) (root : Nat) (v : Val) (p : Pipelin
     (_hdec : Yaml.decodeYAML s root = .ok v) (hp : parsePipeline v = .ok (p, ws)) :
     p.steps.isSome = true ∧ ∃ j, mPipeline p = .ok j :=
   document_usable v p ws hp
+
+/-- C13, YAML leg: the value tree handed to `yaml.Marshal` exists for every parsed pipeline — no side condition:
+    no inline key of a parsed struct collides with a declared field key (yaml.v3 panics on that), no input
+    step is empty. (That the emitter can write every such tree is outside the model: finding F20.) -/
+theorem C13_yaml_marshal_succeeds (v : Val) (p : Pipeline) (ws : List Warn) (hv : NoUMap v) (hd : KeysNodup v)
+    (hp : parsePipeline v = .ok (p, ws)) : ∃ j, MarshalY.yPipeline p = .ok j :=
+  yaml_marshal_total v p ws hv hd hp
+
+/-- …from the node graph. -/
+theorem C13_document_yaml_usable (s : Yaml.Store) (root : Nat) (v : Val) (p : Pipeline) (ws : List Warn)
+    (hs : ScalarStore s) (hdec : Yaml.decodeYAML s root = .ok v) (hp : parsePipeline v = .ok (p, ws)) :
+    p.steps.isSome = true ∧ (∃ j, mPipeline p = .ok j) ∧ ∃ j, MarshalY.yPipeline p = .ok j :=
+  have hshape := decoded_tree_shape s root v hs hdec
+  ⟨(document_usable v p ws hp).1, (document_usable v p ws hp).2, yaml_marshal_total v p ws hshape.1 hshape.2 hp⟩
 
 /-! ### Non-vacuity
 
